@@ -57,14 +57,14 @@ PosIn(s, i) == CHOOSE k \in 1..Len(s) : s[k] = i
 InSeq(s, i) == \E k \in 1..Len(s) : s[k] = i
 
 \* j is a waiting message that consumer c could be given right now
-Eligible(c, j) == loc[j] = U("n") /\ Matches(c, j) /\ ~Overdue(j)
+Eligible(c, j) == (loc[j] = U("n") \/ (loc[j] = U("d") /\ DueOk(j))) /\ Matches(c, j) /\ ~Overdue(j)
 
 (* C15.  Taking i from the normal place is in FIFO order for consumer c unless a message that    *)
 (* arrived (was enqueued or was returned) earlier, of the same priority, is still waiting and     *)
 (* eligible.  A returned message and a message that came through the delayed category may itself  *)
 (* be delivered at any time (but it may not be overtaken).                                          *)
 FifoOk(c, i) ==
-    (loc[i] = U("n") /\ InSeq(norder, i) /\ ~ret[i]) =>
+    (InSeq(norder, i) /\ ~ret[i]) =>
         \A k \in 1..(PosIn(norder, i) - 1) :
             ~(Eligible(c, norder[k]) /\ meta[norder[k]].prio = meta[i].prio)
 
@@ -169,7 +169,9 @@ GiveBack(i, k) ==
     /\ holder' = [holder EXCEPT ![i] = NoC]
     /\ ret' = [ret EXCEPT ![i] = TRUE]
     /\ meta' = [meta EXCEPT ![i].dl = NoTime]     \* the latency clock of C05 is not restarted by a return
-    /\ norder' = IF k = "n" /\ meta[i].due = NoTime THEN Append(Rm(norder, i), i) ELSE norder
+    \* C15: a message returned through the normal category takes its place in the arrival order at the moment of its
+    \* return, wherever the broker physically keeps it (normal list, or delayed store with a due time already passed)
+    /\ norder' = IF origin[i] = "n" /\ k \in {"n", "d"} THEN Append(Rm(norder, i), i) ELSE norder
 
 Reject(c, i, k) ==
     /\ Held(c, i) /\ GiveBack(i, k)
@@ -245,7 +247,7 @@ Conservation ==
         /\ transit[i] => (loc[i] = Zero /\ holder[i] # NoC)
 (* C14: in flight <=> held by exactly one consumer *)
 OneHolder == \A i \in Ids : (loc[i].p > 0 \/ transit[i]) <=> holder[i] # NoC
-NorderSound == /\ \A k \in 1..Len(norder) : loc[norder[k]] = U("n") /\ meta[norder[k]].due = NoTime
+NorderSound == /\ \A k \in 1..Len(norder) : loc[norder[k]] \in {U("n"), U("d")}
                /\ \A a, b \in 1..Len(norder) : a # b => norder[a] # norder[b]
 (* C05: never handed to a normal consumer before its due time; C12: never when expired *)
 TakenNow(c, i) == holder[i] # c /\ holder'[i] = c
